@@ -334,6 +334,31 @@ def result_outcomes(body, du, path):
     return out, True
 
 
+def enum_facts(conds, variants, mentions=None):
+    """Which variants of one enum a path's conditions leave possible, however the test was spelled: a `match` / `if let` /
+    `matches!` (a discriminant switch: a 'variant' condition), or `X == E::V` / `X != E::V` (a PartialEq call on an
+    aggregate of that enum, canonicalised to `eq`).  `variants`: the enum's variant names; `mentions(descr)` (optional)
+    restricts the PartialEq form to tests whose operands mention the scrutinee.  Returns the set still possible."""
+    vs = set(variants)
+    def find_variant(d):
+        if isinstance(d, tuple):
+            if len(d) >= 3 and d[0] == "agg" and d[2] in variants:
+                return d[2]
+            for x in d:
+                r = find_variant(x)
+                if r:
+                    return r
+        return None
+    for cd in conds:
+        if cd[0] == "variant" and cd[2] and set(cd[2]) <= set(variants):
+            vs &= set(cd[2])
+        elif cd[0] == "bool" and is_eq_call(cd[1]):
+            v = find_variant(cd[1][2])
+            if v and (mentions is None or mentions(cd[1][2])):
+                vs = (vs & {v}) if cd[2] else (vs - {v})
+    return vs
+
+
 def int_facts(conds, is_who):
     """What a path's conditions say about one integer operand (is_who(descr) -> bool picks it): (eq, ne) -- the set of
     constants it was found equal to and the set it was found different from -- whether the author wrote a `match`
